@@ -74,6 +74,10 @@ func judge(c Case) *pbt.Verdict {
 	if c.UserKey {
 		exts = append(exts, graphsync.ExtensionData{Name: graphsync.ExtensionDeDupByKey, Data: basicnode.NewString("own-scope")})
 	}
+	if c.PauseAt > 0 && p.Ref.PathLoadedTwice() && run.Known("C02-path-loaded-twice-then-resume") {
+		v.Excluded = "C02-path-loaded-twice-then-resume"
+		return v
+	}
 	opts := scen.ExOpts{Exts: exts}
 	resumed := false
 	if c.PauseAt > 0 {
